@@ -1726,7 +1726,7 @@ func (c *codegen) isCallExprSyscall(e ast.Expr) bool {
 //     is encountered during an actual execution.
 //  3. CATCH and FINALLY blocks are the same, and both contain the same CALLs.
 //  4. Right before the CATCH block, check a variable from (2). If it is null, jump to the end of CATCH+FINALLY block.
-//  5. In CATCH block we set Y to true and emit default return values if it is the last defer.
+//  5. In CATCH block we set Y to true and emit default return values if the exception was recovered.
 //  6. Execute FINALLY block only if Y is false.
 func (c *codegen) processDefers() {
 	for i := range slices.Backward(c.scope.deferStack) {
@@ -1757,14 +1757,15 @@ func (c *codegen) processDefers() {
 		c.emitStoreByIndex(varGlobal, c.exceptionIndex)
 		emit.Opcodes(c.prog.BinWriter, opcode.THROW)
 		c.setLabel(recovered)
-		if i == 0 {
-			results := c.scope.decl.Type.Results
-			if results.NumFields() != 0 {
-				// After panic, default values must be returns, except for named returns,
-				// which we don't support here for now.
-				for i := range slices.Backward(results.List) {
-					c.emitDefault(c.typeOf(results.List[i].Type))
-				}
+		// The panic is recovered by this deferred call (whichever of them it is),
+		// so the function returns normally from here and needs its results on
+		// the stack, the remaining deferred calls are executed as usual.
+		results := c.scope.decl.Type.Results
+		if results.NumFields() != 0 {
+			// After panic, default values must be returns, except for named returns,
+			// which we don't support here for now.
+			for i := range slices.Backward(results.List) {
+				c.emitDefault(c.typeOf(results.List[i].Type))
 			}
 		}
 		emit.Jmp(c.prog.BinWriter, opcode.ENDTRYL, after)
